@@ -106,6 +106,10 @@ def fold_scan(fn):
             if i0.get("k") == "Path" and i0.get("local") in inits:
                 i0 = peel_refs(inits[i0["local"]])
             txt = r.e(i0)
+            # `let first = centroids.row(0); let start = (0, rdistance(first, x));`: follow the locals the start pair mentions
+            for y in walk(i0):
+                if y.get("k") == "Path" and y.get("local") in inits:
+                    txt += " " + r.e(inits[y["local"]])
             skip_arg = [y for y in walk(n["recv"]) if y.get("k") == "MethodCall" and y["name"] == "skip"]
             one = skip_arg and peel_refs(skip_arg[0]["args"][0]).get("v") == "1"
             row0 = i0.get("k") == "Tup" and len(i0["es"]) == 2 and peel_refs(i0["es"][0]).get("v") == "0" and ".row(0)" in txt.replace(" ", "") and "rdistance" in txt
